@@ -65,6 +65,21 @@ Export ==
         text == Cat(lines)
     IN text = "" \/ Emit(text)
 
+\* the same without dropping the behaviours the model refuses to predict (C02 only
+\* needs the inputs: its oracle is the error model, not the expected text)
+ExportAll ==
+  prog # <<>> =>
+    Emit(Cat([i \in DOMAIN Combos |-> ToJson(Record(Combos[i][1], Combos[i][2])) \o "\n"]))
+
+\* inputs only (no expectation is computed)
+ExportInputs ==
+  prog # <<>> =>
+    Emit(Cat([i \in DOMAIN Combos |->
+       ToJson([focus |-> Focus, main |-> "main",
+               templates |-> <<<<"main", Src(prog)>>>> \o [j \in DOMAIN Partials |-> <<Partials[j][1], Src(Partials[j][2])>>],
+               data |-> Combos[i][1], cfg |-> Combos[i][2],
+               expect |-> [ok |-> TRUE, err |-> "", out |-> ""]]) \o "\n"]))
+
 \* Properties of the reference semantics itself, checked on every program:
 \* a render either succeeds or fails with a class of the error model
 ErrorModel == {"", "LiquidTypeError", "LiquidSyntaxError", "UndefinedError", "UnknownFilterError",
